@@ -9,6 +9,11 @@
 //! iter_by_rrset yields exactly those RRsets; soa()/ns() are the apex SOA/NS RRsets; and all (checked) lookups
 //! of 20 names agree with the reference built from the ACCEPTED records only — so a rejected add
 //! changes no lookup and no iteration (no stray empty nodes).
+//! Deep zones (iteration only): below the apex a tree of `depth` levels with `k` branches per level, records
+//! at a chosen set of leaves (every other node on the way is an empty non-terminal) or additionally at every
+//! inner node: every subset of the 8 leaves of (k, depth) = (2, 3) four times, every 29th subset of the 16 leaves of (2, 4) once
+//! (the order in which the store walks its hash maps is random per zone), the full trees (2, 3), (2, 4),
+//! (2, 5), (3, 3), (4, 2), (3, 4) eight times each, also hanging below a chain s.r.ap.ex. next to a sibling.
 #[path = "../zone_ref.rs"]
 mod zone_ref;
 use quandary::db::zone::GluePolicy;
@@ -75,9 +80,74 @@ fn run(apex: &'static str, seq: &[usize], names: &[QName]) -> u64 {
     }
 }
 
+/// All leaf names of the full tree with `k` branches at each of `depth` levels below `base` (labels b0, b1, ..).
+fn leaves(k: usize, depth: usize, base: &str) -> Vec<&'static str> {
+    let mut v = vec![base.to_string()];
+    for _ in 0..depth { v = v.iter().flat_map(|n| (0..k).map(move |b| format!("b{b}.{n}"))).collect(); }
+    v.into_iter().map(|n| &*Box::leak(n.into_boxed_str())).collect()
+}
+
+/// Builds the zone from TXT records at the given owners (plus, with `inner`, at every name between them and
+/// `base`) and compares both iterations (and soa()/ns()) with the model.
+fn run_deep(what: &str, owners: &[&'static str], base: &'static str, inner: bool) {
+    let mut z = HashMapTreeZone::new("ap.ex.".parse().unwrap(), class_of(IN), GluePolicy::Narrow);
+    let mut m = Model::new("ap.ex.", IN);
+    let mut recs = vec![rec("ap.ex.", SOA, IN, 300, SOA_RD)];
+    if base != "ap.ex." { recs.push(rec("sib.r.ap.ex.", A, IN, 300, &[10, 0, 0, 9])); recs.push(rec("z.ap.ex.", A, IN, 300, &[10, 0, 0, 8])); }
+    for o in owners {
+        recs.push(rec(o, TXT, IN, 300, b"\x04leaf"));
+        if inner {
+            let mut n: &'static str = o;
+            while let Some((_, parent)) = n.split_once('.') {
+                if parent.len() <= base.len() { break; }
+                recs.push(rec(parent, T257, IN, 300, b"\x00\x05inner"));
+                n = parent;
+            }
+        }
+    }
+    let input = (what, "TXT records at", owners, "records at the inner nodes", inner);
+    let r = catch_unwind(AssertUnwindSafe(|| {
+        for r in &recs {
+            let (got, want) = (real_add(&mut z, r), m.add(r));
+            if !got || !want { fail(&format!("add accepted (true) / rejected (false) the record {r:?}"), &input, &got, &want); }
+        }
+        if let Err((what, got, want)) = compare_iteration(&z, &m) { fail(&format!("{what} of a deep zone (every node once, incl. empty non-terminals; exactly the RRsets added)"), &input, &got, &want); }
+    }));
+    if r.is_err() { fail("panic inside the zone store", &input, &"panic", &"no panic"); }
+}
+
+fn deep_zones() -> u64 {
+    let mut cases = 0u64;
+    for (k, depth, repeat) in [(2usize, 3usize, 4usize), (2, 4, 1)] {
+        let all = leaves(k, depth, "ap.ex.");
+        // depth 3: every subset; depth 4: every 29th of the 65536 subsets (and the full set)
+        for subset in (0u32..1 << all.len()).filter(|s| depth == 3 || s % 29 == 0 || *s == 0xffff) {
+            let owners: Vec<&'static str> = all.iter().enumerate().filter(|(i, _)| subset >> i & 1 == 1).map(|(_, n)| *n).collect();
+            for round in 0..repeat {
+                for inner in [false, true] {
+                    run_deep(&format!("subset {subset:#b} of the leaves of the tree with {k} branches at each of {depth} levels below ap.ex."), &owners, "ap.ex.", inner);
+                    cases += 1;
+                }
+            }
+        }
+    }
+    for (k, depth) in [(2usize, 3usize), (2, 4), (2, 5), (3, 3), (4, 2), (3, 4)] {
+        for base in ["ap.ex.", "s.r.ap.ex."] {
+            let all = leaves(k, depth, base);
+            for _ in 0..8 {
+                for inner in [false, true] {
+                    run_deep(&format!("full tree with {k} branches at each of {depth} levels below {base}"), &all, base, inner);
+                    cases += 1;
+                }
+            }
+        }
+    }
+    cases
+}
+
 fn main() {
     let names = qnames(&QUERIES);
-    let mut cases = 0u64;
+    let mut cases = deep_zones();
     // every sequence of length 0..=LEN exactly once, shortest first; each is run from a fresh zone, so the
     // state after every step of every sequence is observed (as the end of the shorter sequence)
     for len in 0..=LEN {
@@ -95,5 +165,5 @@ fn main() {
             }
         }
     }
-    done(cases, "all add sequences of length <= 4 over a 20-record universe (incl. each rejection reason), full iteration + soa/ns + lookups of 20 names x 6 types + addrs + all x search_below_cuts (checked lookups) after each; sequences of length <= 2 also under a mixed-case apex");
+    done(cases, "all add sequences of length <= 4 over a 20-record universe (incl. each rejection reason), full iteration + soa/ns + lookups of 20 names x 6 types + addrs + all x search_below_cuts (checked lookups) after each; sequences of length <= 2 also under a mixed-case apex; deep zones (iteration + soa/ns only): TXT records at every subset of the 8 leaves of the binary tree of depth 3 below the apex (x 4 runs) and at every 29th subset (as a bit set) of the 16 leaves of depth 4 (x 1), with and without records at the inner nodes; full trees (branches, depth) = (2,3) (2,4) (2,5) (3,3) (4,2) (3,4) below the apex and below s.r.ap.ex. (with siblings), x 8 runs each");
 }
